@@ -26,13 +26,20 @@ RULE = ("case = a multiset of 1-7 distinct atoms (elements, isotopes, D/T, ions,
         "isotopes, C/H next to Ca/He/Hf...) with counts k/8, and 2-4 variants of it: formula({atom: n}) in a drawn "
         "key order; formula(string) rendered from a derivation tree in which the atoms are permuted, some counts "
         "split over two places, and chunks wrapped in (nested) groups with multipliers 2,4,8,.5,.25; sums "
-        "m1*f1 + m2*f2 (+=) of such parts. Oracle per variant: hill.atoms == the multiset exactly (and == f.atoms); "
+        "m1*f1 + m2*f2 (+=) of such parts, with a drawn flag 'early': the Hill form of every part, product and "
+        "running sum is taken and checked against its own model as soon as it exists and again after it was used "
+        "as an operand; plus operation histories of pbt/fops_c02.py (constructors, copy, +, n*, +=, again) with "
+        "the Hill form of the result and of the operands checked after every step (flag) and of all variables "
+        "at the end. Oracle per formula: hill.atoms == the multiset exactly (and == f.atoms); "
         "hill.structure is flat, one entry per atom, with key (symbol not in {C,H}, symbol, mass number or 0) "
-        "non-decreasing; hill.hill == hill with equal str; across variants all Hill forms are == with identical "
+        "non-decreasing; hill.hill == hill with equal str; .hill taken twice is the same; it equals the Hill form of a "
+        "fresh formula({atom: n}) with the same counts in another key order; across variants all Hill forms are == with identical "
         "str; the string written in that order (charge-state ties in the order the library's Hill form uses), "
         "parsed, equals its own Hill form and the variants' Hill form. non-trivial = the multiset has two charge "
         "states of one element, or two isotopes of one element, or D/T together with H; distinct by the case.")
 ASSUMPTIONS = [
+    "in operation histories the counts are arbitrary doubles: the Hill form's atoms are compared with the Fraction "
+    "model at rel 1e-12 and exactly with f.atoms; the canonical reference is built from f.atoms itself",
     "D and T sort by their own symbols 'D' and 'T' (the property orders 'by symbol'); other hydrogen isotopes sort under H",
     "the order among charge states of one isotope/element is not prescribed by the property; only that it is the same "
     "for every formula with these atoms (canonicity)",
@@ -172,7 +179,9 @@ def _variant(draw, specs, ks):
         else:
             part = ["seq", [[jnum(c), specs[i]] for i, c in inner]]
         parts.append([jnum(m), part, draw(st.booleans())])
-    return ["arith", parts]
+    # early: take (and check) the Hill form of every intermediate formula as soon as it exists, so that
+    # the following operations work on operands whose Hill form has already been taken
+    return ["arith", parts, draw(st.booleans())]
 
 
 def cases(pool):
@@ -213,8 +222,20 @@ def variant_model(pool, atoms, v):
     return total
 
 
-def variant_build(E, atoms, v):
-    table, formula = E["table"], E["formula"]
+def part_model(pool, part):
+    if part[0] == "tree":
+        return fa.composition(pool, part[1])
+    comp = {}
+    for c, spec in part[1]:
+        k = spec_key(pool, spec)
+        comp[k] = comp.get(k, 0) + Fraction(c)
+    return comp
+
+
+def variant_build(E, atoms, v, hook=None):
+    """Build the formula of a variant.  For an arithmetic variant with the 'early' flag, hook(f, model, label)
+    is called on every intermediate formula (part, product, running sum) right after it exists/changes."""
+    table, formula, pool = E["table"], E["formula"], E["pool"]
     if v[0] == "dict":
         d = {}
         for i in v[1]:
@@ -223,20 +244,32 @@ def variant_build(E, atoms, v):
         return formula(d), "dict"
     if v[0] == "tree":
         return formula(fa.render(v[1])), "string"
-    f = None
-    for m, part, inplace in v[1]:
+    early = len(v) > 2 and v[2] and hook is not None
+    f, fmodel = None, {}
+    for n, (m, part, inplace) in enumerate(v[1]):
         if part[0] == "tree":
             p = formula(fa.render(part[1]))
         else:
             p = formula([(c, resolve(table, spec)) for c, spec in part[1]])
-        p = m * p
+        pm = part_model(pool, part)
+        if early:
+            hook(p, pm, "part %d" % n)
+        q = m * p
+        qm = ops.mscale(pm, Fraction(m))
+        if early:
+            hook(q, qm, "%r * part %d (after part.hill)" % (m, n))
+            hook(p, pm, "part %d after it was multiplied" % n)
         if f is None:
-            f = p
+            f = q
         elif inplace:
-            f += p
+            f += q
         else:
-            f = f + p
-    return f, "arithmetic"
+            f = f + q
+        fmodel = ops.madd(fmodel, qm)
+        if early and n:
+            hook(f, fmodel, "sum of parts 0..%d (%s)" % (n, "+=" if inplace else "+"))
+            hook(q, qm, "product %d after it was added" % n)
+    return f, "arithmetic-early" if early else "arithmetic"
 
 
 def describe(v):
@@ -255,22 +288,94 @@ def deep_tuple(s):
     return tuple((c, deep_tuple(f) if isinstance(f, (list, tuple)) else f) for c, f in s)
 
 
+def classify(keys):
+    """(two_charges, tie, two_isotopes, dt_h) of a set of atom keys."""
+    by_el, by_iso = {}, {}
+    for (z, a, c) in keys:
+        by_el.setdefault(z, set()).add(a)
+        by_iso.setdefault((z, a), set()).add(c)
+    two_charges = any(len(v) > 1 for v in by_iso.values()) or any(
+        len(set(c for (z2, a2, c) in keys if z2 == z)) > 1 for z in by_el)
+    tie = any(len(v) > 1 for v in by_iso.values())
+    two_isotopes = any(len(v) > 1 for v in by_el.values())
+    dt_h = any(k[:2] in ((1, 2), (1, 3)) for k in keys) and any(k[0] == 1 and k[1] not in (2, 3) for k in keys)
+    return two_charges, tie, two_isotopes, dt_h
+
+
+def check_hill(E, f, model, where, case, exact=True):
+    """One formula against its model {key: Fraction}: f.hill has the model's atoms (exactly, or rel 1e-12 when
+    the counts are arbitrary doubles) and f.atoms; is flat, complete and ordered; is idempotent; equals the Hill
+    form of a fresh formula({atom: count}) with the same atoms given in another order.  Returns (hill, atoms in order)."""
+    table, formula = E["table"], E["formula"]
+    before = deep_tuple(f.structure)
+    h = f.hill
+    if deep_tuple(f.structure) != before:
+        raise Violation("c19:hill-mutates", "%s: taking .hill changed the formula" % where, case)
+    fa_ = f.atoms
+    ha = h.atoms
+    got = {}
+    for a, n in ha.items():
+        k = atom_key(a)
+        if k in got or a is not key_to_atom(table, k):
+            raise Violation("c19:atoms:identity", "%s: Hill form has a foreign/duplicate atom %r" % (where, a), case)
+        got[k] = n
+    if exact:
+        bad = set(got) != set(model) or any(Fraction(got[k]) != model[k] for k in model)
+    else:
+        bad = set(got) != set(model) or any(
+            abs(float(got[k]) - float(model[k])) > 1e-12 * abs(float(model[k])) for k in model)
+    if bad:
+        raise Violation("c19:atoms", "%s: Hill form %s has atoms %r, expected %r"
+                        % (where, h, got, dict((k, float(c)) for k, c in model.items())), case)
+    if ha != fa_:
+        raise Violation("c19:atoms", "%s: f.hill.atoms %r != f.atoms %r" % (where, ha, fa_), case)
+    # flat, complete, ordered
+    seq = []
+    for entry in h.structure:
+        if (not isinstance(entry, (list, tuple)) or len(entry) != 2 or isinstance(entry[1], (list, tuple))):
+            raise Violation("c19:not-flat", "%s: Hill structure %r is not a flat list of (count, atom)"
+                            % (where, h.structure), case)
+        seq.append(entry[1])
+    if len(seq) != len(model):
+        raise Violation("c19:duplicates", "%s: Hill structure %r lists an atom twice" % (where, h.structure), case)
+    keys = [hill_key(a) for a in seq]
+    for x, y, ax, ay in zip(keys, keys[1:], seq, seq[1:]):
+        if x > y:
+            what = ("isotope" if x[:2] == y[:2] else "CH-first" if x[0] != y[0] else "alphabetical")
+            raise Violation("c19:order:" + what, "%s: Hill form %s lists %r before %r" % (where, h, ax, ay), case)
+    # idempotence
+    hh = h.hill
+    if not (hh == h) or str(hh) != str(h):
+        raise Violation("c19:idempotence", "%s: hill.hill = %s (%r) but hill = %s (%r)"
+                        % (where, hh, hh.structure, h, h.structure), case)
+    # a second look gives the same answer
+    h2 = f.hill
+    if not (h2 == h):
+        raise Violation("c19:unstable", "%s: .hill taken twice gives %s then %s" % (where, h, h2), case)
+    # canonical: a fresh formula with the same atom counts, keys in another order
+    if exact:
+        items = [(key_to_atom(table, k), jnum(model[k])) for k in sorted(model, reverse=True)]
+    else:
+        items = list(reversed(list(fa_.items())))
+    ref = formula(dict(items))
+    rh = ref.hill
+    if not (rh == h) or str(rh) != str(h):
+        tie = classify(set(model))[1]
+        same_upto_charge = [hill_key(a) for _, a in rh.structure] == keys
+        b = "c19:canonical:charge-state-order" if (same_upto_charge and tie and
+                                                   [id(a) for _, a in rh.structure] != [id(a) for a in seq]) else "c19:canonical"
+        raise Violation(b, "same atoms, different Hill forms: %s -> %s but formula(%r) -> %s"
+                        % (where, h, dict(items), rh), case)
+    return h, seq
+
+
 def check_case(ctx, case):
     E = env()
     pool, table, formula = E["pool"], E["table"], E["formula"]
     atoms = case["atoms"]
     multiset = dict((spec_key(pool, s), Fraction(k, 8)) for s, k in atoms)
     assert len(multiset) == len(atoms)
-    # classes
-    by_el, by_iso = {}, {}
-    for (z, a, c) in multiset:
-        by_el.setdefault(z, set()).add(a)
-        by_iso.setdefault((z, a), set()).add(c)
-    two_charges = any(len(v) > 1 for v in by_iso.values()) or any(
-        len(set(c for (z2, a2, c) in multiset if z2 == z)) > 1 for z in by_el)
-    tie = any(len(v) > 1 for v in by_iso.values())
-    two_isotopes = any(len(v) > 1 for v in by_el.values())
-    dt_h = any(k[:2] in ((1, 2), (1, 3)) for k in multiset) and any(k[0] == 1 and k[1] not in (2, 3) for k in multiset)
+    two_charges, tie, two_isotopes, dt_h = classify(set(multiset))
     cls = sorted(set("atom:" + spec_class(s) for s, _ in atoms)) + sorted(set("variant:" + v[0] for v in case["variants"]))
     for flag, name in ((two_charges, "nt:two-charge-states"), (tie, "nt:charge-tie-same-isotope"),
                        (two_isotopes, "nt:two-isotopes"), (dt_h, "nt:DT-with-H")):
@@ -278,6 +383,8 @@ def check_case(ctx, case):
             cls.append(name)
     if any(k[0] == 6 for k in multiset):
         cls.append("has-C")
+    if any(v[0] == "arith" and len(v) > 2 and v[2] for v in case["variants"]):
+        cls.append("variant:arith-early-hill")
     ctx.case(json.dumps(case, sort_keys=True), nontrivial=(two_charges or two_isotopes or dt_h),
              sample={"atoms": atoms, "variants": [describe(v)[:100] for v in case["variants"]]}, cls=cls)
 
@@ -286,45 +393,13 @@ def check_case(ctx, case):
         model = variant_model(pool, atoms, v)
         if model != multiset:
             raise AssertionError("generator bug: variant %r has composition %r, multiset %r" % (v, model, multiset))
-        f, how = variant_build(E, atoms, v)
+        label = "variant %d (%s)" % (vi, describe(v)[:120])
+
+        def hook(g, gmodel, what):
+            check_hill(E, g, gmodel, "%s, %s" % (label, what), case)
+        f, how = variant_build(E, atoms, v, hook)
         where = "variant %d (%s: %s)" % (vi, how, describe(v)[:120])
-        before = deep_tuple(f.structure)
-        h = f.hill
-        if deep_tuple(f.structure) != before:
-            raise Violation("c19:hill-mutates", "%s: taking .hill changed the formula" % where, case)
-        # composition
-        fa_ = f.atoms
-        ha = h.atoms
-        got = {}
-        for a, n in ha.items():
-            k = atom_key(a)
-            if k in got or a is not key_to_atom(table, k):
-                raise Violation("c19:atoms:identity", "%s: Hill form has a foreign/duplicate atom %r" % (where, a), case)
-            got[k] = n
-        if set(got) != set(multiset) or any(Fraction(got[k]) != multiset[k] for k in multiset):
-            raise Violation("c19:atoms", "%s: Hill form %s has atoms %r, expected %r"
-                            % (where, h, got, dict((k, float(c)) for k, c in multiset.items())), case)
-        if ha != fa_:
-            raise Violation("c19:atoms", "%s: f.hill.atoms %r != f.atoms %r" % (where, ha, fa_), case)
-        # flat, complete, ordered
-        seq = []
-        for entry in h.structure:
-            if (not isinstance(entry, (list, tuple)) or len(entry) != 2 or isinstance(entry[1], (list, tuple))):
-                raise Violation("c19:not-flat", "%s: Hill structure %r is not a flat list of (count, atom)"
-                                % (where, h.structure), case)
-            seq.append(entry[1])
-        if len(seq) != len(multiset):
-            raise Violation("c19:duplicates", "%s: Hill structure %r lists an atom twice" % (where, h.structure), case)
-        keys = [hill_key(a) for a in seq]
-        for x, y, ax, ay in zip(keys, keys[1:], seq, seq[1:]):
-            if x > y:
-                what = ("isotope" if x[:2] == y[:2] else "CH-first" if x[0] != y[0] else "alphabetical")
-                raise Violation("c19:order:" + what, "%s: Hill form %s lists %r before %r" % (where, h, ax, ay), case)
-        # idempotence
-        hh = h.hill
-        if not (hh == h) or str(hh) != str(h):
-            raise Violation("c19:idempotence", "%s: hill.hill = %s (%r) but hill = %s (%r)"
-                            % (where, hh, hh.structure, h, h.structure), case)
+        h, seq = check_hill(E, f, multiset, where, case)
         hills.append((h, where, seq))
     # canonicity
     h0, w0, seq0 = hills[0]
@@ -353,6 +428,42 @@ def check_case(ctx, case):
                         % (s, ph, h0), case)
 
 
+# ----------------------------------------------------------------------
+# operation histories (pbt/fops_c02.py): Hill forms taken between the operations
+def check_history(ctx, value):
+    history, early = value[0], bool(value[1])
+    E = env()
+    case = {"kind": "history", "ops": history, "early": early}
+    seen = set()
+
+    def look(vars_, i, where):
+        v = vars_[i]
+        if not v.comp or any(c <= 0 for c in v.comp.values()):
+            return
+        seen.update(v.comp)
+        check_hill(E, v.f, v.comp, where, case, exact=False)
+
+    def observer(step, vars_):
+        # the Hill form of the new/changed variable and, again, of its operands, right after the step
+        i = step.new if step.new is not None else step.changed
+        where = "step %d %s" % (step.index, json.dumps(step.op)[:80])
+        if i is not None:
+            look(vars_, i, where + ": result")
+        for j in step.operands:
+            if j != i:
+                look(vars_, j, where + ": operand %d" % j)
+    vars_, flags, skipped = ops.interpret(history, observer=observer if early else None,
+                                          mag=(Fraction(1, 10 ** 12), Fraction(10 ** 12)))
+    for i in range(len(vars_)):
+        look(vars_, i, "end of history, variable %d" % i)
+    two_charges, tie, two_isotopes, dt_h = classify(seen)
+    cls = ["source:history", "history:hill-after-every-step" if early else "history:hill-at-end"]
+    cls += ["op:" + k for k in sorted(set(flags["kinds"]))]
+    ctx.case(json.dumps(case, sort_keys=True), nontrivial=(two_charges or two_isotopes or dt_h),
+             sample={"ops": history if len(history) <= 6 else history[:6] + ["..."], "early": early,
+                     "hill": [str(v.f.hill)[:60] for v in vars_][:5]}, cls=cls)
+
+
 def _spec_of(atom):
     iso = getattr(atom, "isotope", 0)
     if atom.number == 1 and iso in (2, 3):
@@ -369,11 +480,22 @@ def task_multisets(ctx, n):
     ctx.search("multisets", cases(E["pool"]), check_case, n)
 
 
+def task_histories(ctx, n, steps=14):
+    E = env()
+    strat = st.tuples(ops.history(E["pool"], max_steps=steps, mult=ops.number()), st.sampled_from([True, True, False]))
+    ctx.search("histories", strat.map(list), check_history, n)
+
+
 def tasks(tier):
     if tier == "quick":
-        return [("multisets-%d" % k, task_multisets, dict(n=375)) for k in range(8)]
-    return [("multisets-%d" % k, task_multisets, dict(n=10000)) for k in range(16)]
+        return ([("multisets-%d" % k, task_multisets, dict(n=330)) for k in range(8)] +
+                [("histories-%d" % k, task_histories, dict(n=200)) for k in range(3)])
+    return ([("multisets-%d" % k, task_multisets, dict(n=10000)) for k in range(12)] +
+            [("histories-%d" % k, task_histories, dict(n=4000, steps=12 + 4 * k)) for k in range(4)])
 
 
 def replay(ctx, case):
-    check_case(ctx, case)
+    if case.get("kind") == "history":
+        check_history(ctx, (case["ops"], case.get("early", False)))
+    else:
+        check_case(ctx, case)
